@@ -66,6 +66,9 @@ theorem zext_ff00 (b : Byte) :
   have := b.isLt
   omega
 
+theorem zext_ff00' (b : Byte) :
+    (0xff00#16 : Word) + BitVec.setWidth 16 b = BitVec.ofNat 16 (0xff00 + b.toNat) := zext_ff00 b
+
 /-! ### flag bits of a byte -/
 def fz (f : Byte) : Bool := f &&& zFlag != 0
 def fn (f : Byte) : Bool := f &&& nFlag != 0
@@ -172,6 +175,20 @@ macro "bv_ariths" : tactic => `(tactic| (repeat' apply And.intro) <;> bv_arith)
 def Holds (i : Instr) : Prop :=
   ∀ (r : Regs) (m : Flat), FLow r →
     abs (runList (effective i r) r m).1 (runList (effective i r) r m).2 = exec i (abs r m)
+
+@[simp] theorem add_one_one (w : Word) : w + 1#16 + 1#16 = w + 2#16 := by
+  rw [BitVec.add_assoc]; rfl
+@[simp] theorem sub_one_one (w : Word) : w - 1#16 - 1#16 = w - 2#16 := by
+  apply BitVec.eq_of_toNat_eq; simp; omega
+
+/-- unfold the schedule, the micro-operations and the spec down to structure literals -/
+macro "c01_simp" "[" ls:Lean.Parser.Tactic.simpLemma,* "]" : tactic => `(tactic|
+  simp [Holds, micro, effective, earlyOf, regOf, rpM, MicroOp.run, Regs.get, Regs.set, Regs.get16, Regs.set16,
+    abs, exec, St.setLoc, St.getLoc, St.setR, St.getR, St.setRp, St.getRp, St.rd, St.wr, St.hl, St.flags,
+    Regs.hl, Regs.bc, Regs.de, Regs.u16, mk16_eq, hi8_eq, lo8_eq, sext_eq, zf_def, nf_def, hf_def, cf_def,
+    Regs.setZf, Regs.setNf, Regs.setHf, Regs.setCf, imm8, imm16, indAddr, indAfter, Ind.addr, zext_ff00, zext_ff00',
+    incSP, decSP, inc16F, dec16F, pushCell, push16, pop16, rstTo, $ls,*])
+macro "c01_simp" : tactic => `(tactic| c01_simp [])
 
 theorem getR_abs (k : Reg) (r : Regs) (m : Flat) : r.get (regOf k) = (abs r m).getR k := by
   cases k <;> rfl
